@@ -230,6 +230,14 @@ def make_files(rng):
     godd = "gr\udce4ph.kthlist"
     entries[godd] = dict(entries["s.kthlist"])
     index["simple"].append((godd, "kthlist"))
+    # ... and names are the user's: accents, characters special to TeX
+    for nm in ("gr\u00e9.cnf", "50%.cnf", "a#b&c.cnf", "x^2_y.cnf",
+               "{brace.cnf", "til~de$.cnf", "back\\slash.cnf"):
+        entries[nm] = {"kind": "file", "data": text}
+        index["cnf"].append(nm)
+    for nm in ("gr\u00e9.kthlist", "100%_#1.kthlist"):
+        entries[nm] = dict(entries["s.kthlist"])
+        index["simple"].append((nm, "kthlist"))
     entries["adir"] = {"kind": "dir"}
     entries["adir.kthlist"] = {"kind": "dir"}
     entries["ro.cnf"] = {"kind": "unwritable", "data": ""}
@@ -559,7 +567,7 @@ def strict_accepts(text):
     return ok
 
 
-def classify(tool, argv, o, fs, mutated):
+def classify(tool, argv, o, fs, mutated, stdio_encoding=None):
     """Return (class, problem-or-None).  class in formula/help/error."""
     req, outname = requested_format(tool, argv)
     tool_default = "* " if tool == "pbgen" else "c "
@@ -623,6 +631,13 @@ def classify(tool, argv, o, fs, mutated):
                                "is %r" % (req, acc))
         if frag_err:
             return "formula", ("formula-bytes-on-stderr", frag_err[:3])
+        if "latex" in acc and text is o.stdout and stdio_encoding:
+            # the document declares \usepackage[utf8]{inputenc}
+            try:
+                text.encode(stdio_encoding).decode("utf-8")
+            except UnicodeError:
+                return "formula", ("latex-is-not-the-utf8-it-declares",
+                                   "standard output in %s" % stdio_encoding)
         return "formula", None
     # ---- non-zero exit status ------------------------------------------------
     if frag_out or frag_file:
@@ -684,13 +699,16 @@ def _one(case, ctx, faults):
         e["plan"] = {"enospc_at": 10}
         if not {"-o", "--output"} & set(cligrammar.expand_options(argv)):
             argv = ["-o", "out.cnf"] + list(argv)
+    # (the standard streams of the process have the encoding of its locale)
+    kw["stdio_encoding"] = case.get("locale")
     o = clirun.run_tool(tool, argv, fs, sim=sim,
                         stdin=case["stdin"].encode("utf-8"), **kw)
     # (a number replaced by another token or a formula name appended leave
     # the requested output format as clear as it was)
     unclear = [m for m in case["mutations"]
                if m not in ("number", "second_cmd", "dangling_T")]
-    klass, prob = classify(tool, argv, o, fs, bool(unclear))
+    klass, prob = classify(tool, argv, o, fs, bool(unclear),
+                           case.get("locale"))
     ctx.log(tool, argv, [f[:2] for f in faults], o.status, klass,
             prob[0] if prob else None, len(o.stdout), len(o.stderr))
     ctx.probe("outcome:%s" % klass)
